@@ -130,6 +130,10 @@ def outcome_scan(spec, mp) -> tuple:
         files[rp(f)] += "import " + ren(t, mp) + "\n"
     dirs = [rp(d) for d in spec["dirs"]]
     kw = {"exclude_external_libraries": False} if spec.get("include_external") else {}
+    if spec.get("level_limit") is not None:
+        kw["level_limit"] = spec["level_limit"]
+    if spec.get("exclude_files"):
+        kw["exclusions"] = tuple("*/" + rp(f).rsplit("/", 1)[-1] for f in spec["exclude_files"])
     with Project(root, files, dirs) as pr:
         sub = rp(spec["module_path"]) if spec["module_path"] else ""
         if spec.get("relative_paths"):
@@ -275,6 +279,10 @@ def cases(draw):
         tree["module_path"] = draw(st.sampled_from(dirs)) if dirs else ""
         tree["include_external"] = draw(st.booleans())
         tree["relative_paths"] = draw(st.integers(0, 2)) == 0
+        tree["level_limit"] = draw(st.sampled_from([None, None, 1, 2]))
+        plain = [f for f in tree["pyfiles"] if not f.endswith("__init__.py")]
+        if plain and draw(st.integers(0, 2)) == 0:
+            tree["exclude_files"] = [draw(st.sampled_from(plain))]
         rho1, rho2 = draw(renamings(TOKENS[:12]))
         return dict(tree, type="scan", rho1=rho1, rho2=rho2)
     tree = draw(RS.trees(root="T0", max_modules=10, siblings=TOKENS[1:7]))
@@ -301,13 +309,15 @@ def cases(draw):
         if len(names) > len(TOKENS):
             names = names[: len(TOKENS)]
         tree2 = [ren(m, tok) for m in inner["tree"]]
-        layers = [{"name": ld["name"], "kind": "names", "modules": [ren(m, tok) for m in ld["modules"]], "as_str": False} for ld in inner["layers"]]
+        layers = [{"name": ld["name"], "kind": "names", "modules": [ren(m, tok) for m in ld["modules"]],
+                   "as_str": len(ld["modules"]) == 1 and draw(st.booleans())} for ld in inner["layers"]]
         if draw(st.booleans()):
             # nested member: a layer lists one of its modules together with a descendant of it
             li = draw(st.integers(0, len(layers) - 1))
             below = [m for m in tree2 if any(M.is_strict_desc(m, x) for x in layers[li]["modules"])]
             if below:
                 layers[li]["modules"] = layers[li]["modules"] + [draw(st.sampled_from(below))]
+                layers[li]["as_str"] = False
         imports = [[ren(u, tok), ren(v, tok)] for u, v in inner["imports"]]
         r1, r2 = draw(renamings([tok[n] for n in names]))
         return {"type": "layer", "tree": tree2, "imports": imports, "layers": layers, "rule": inner["rule"], "rho1": r1, "rho2": r2}
